@@ -8,8 +8,23 @@ import BLDFM.Interface
 
 namespace BLDFM
 
+/-- the `grid` entry of a result: 3-D meshgrids `[k, j, i]` (3-D output), 2-D meshgrids `[j, i]`, or plain
+coordinate vectors (accepted by the writer for 2-D output) -/
+inductive NcGrid where
+  | g3 (X Y Z : Nat → Nat → Nat → V)
+  | g2 (X Y : Nat → Nat → V)
+  | g1 (x y : Nat → V)
+
+/-- coordinate extraction of the writer: `X[0,0,:]`, `Y[0,:,0]`, `Z[:,0,0]` for 3-D output; `X[0,:]`, `Y[:,0]` for 2-D
+meshgrids; vectors pass through -/
+def NcGrid.coords : NcGrid → (Nat → V) × (Nat → V) × Option (Nat → V)
+  | .g3 X Y Z => (fun i => X 0 0 i, fun j => Y 0 j 0, some (fun k => Z k 0 0))
+  | .g2 X Y => (fun i => X 0 i, fun j => Y j 0, none)
+  | .g1 x y => (x, y, none)
+
 /-- one result dictionary, reduced to what the writer reads -/
 structure NcResult where
+  grid : NcGrid := .g1 (fun _ => 0) (fun _ => 0)
   /-- field values by flattened cell index -/
   flx : Nat → V
   conc : Nat → V
@@ -30,6 +45,13 @@ deriving Repr, DecidableEq
 structure NcDataset where
   timeLabels : List V
   towerLabels : List V
+  /-- sizes of the `time` and `tower` dimensions -/
+  nTime : Nat
+  nTowers : Nat
+  /-- coordinate variables (from the FIRST result's grid); `z` only for 3-D output -/
+  x : Nat → V
+  y : Nat → V
+  z : Option (Nat → V)
   /-- `footprint[t, ti, cell]`, `concentration[t, ti, cell]` -/
   footprint : Nat → Nat → Nat → V
   concentration : Nat → Nat → Nat → V
@@ -44,15 +66,21 @@ structure NcDataset where
   towerZ : Nat → Option V
 
 def NcResult.dflt : NcResult :=
-  { flx := fun _ => 0, conc := fun _ => 0, timestamp := 0, ustar := none, mol := none, windSpeed := none, windDir := none }
+  { grid := .g1 (fun _ => 0) (fun _ => 0), flx := fun _ => 0, conc := fun _ => 0, timestamp := 0, ustar := none, mol := none, windSpeed := none, windDir := none }
 
 /-- `save_footprints_to_netcdf(results, config, path)`; `results` is the ordered dict
 tower name ↦ list of result dicts, `towers` the configuration's tower list -/
 def ncSave (results : List (V × List NcResult)) (towers : List NcTower) : NcDataset :=
   let first : List NcResult := match results with | [] => [] | (_, s) :: _ => s
   let at_ := fun (ti t : Nat) => ((results.getD ti (0, [])).2).getD t NcResult.dflt
+  let g : NcGrid := (first.getD 0 NcResult.dflt).grid
   { timeLabels := first.map (fun r => r.timestamp),
     towerLabels := results.map (fun p => p.1),
+    nTime := first.length,
+    nTowers := results.length,
+    x := g.coords.1,
+    y := g.coords.2.1,
+    z := g.coords.2.2,
     footprint := fun t ti c => (at_ ti t).flx c,
     concentration := fun t ti c => (at_ ti t).conc c,
     -- met parameters are taken from the first tower
